@@ -1126,6 +1126,33 @@ def argpartition(x, kth, axis=-1):
     return argsort(x)
 
 
+def partition(x, kth, axis=-1):
+    """np.partition: element kth is in its sorted position; modelled as the fully sorted array (one admissible result)"""
+    x = _as(x)
+    return x[argsort(x)]
+
+
+def array_split(ary, indices_or_sections, axis=0):
+    """np.array_split for an integer number of sections along axis 0 (numpy's rule: the first len % n sections get one more)"""
+    a = _as(ary)
+    if axis != 0 or not isinstance(indices_or_sections, (int, _np.integer)) or isinstance(indices_or_sections, bool):
+        if is_sym(indices_or_sections):
+            indices_or_sections = core.fork_int(indices_or_sections)
+        else:
+            raise UnsupportedByShim("array_split with explicit indices / axis != 0")
+    n = int(indices_or_sections)
+    if n <= 0:
+        raise ValueError("number sections must be larger than 0.")
+    L_ = a.a.shape[0]
+    each, extras = divmod(L_, n)
+    out, start = [], 0
+    for i in builtins.range(n):
+        size = each + (1 if i < extras else 0)
+        out.append(a[start:start + size])
+        start += size
+    return out
+
+
 def lexsort(keys, axis=-1):
     """indirect stable sort by several keys, the LAST key being the primary one (numpy's contract)"""
     ks = [k._symq_value() if (hasattr(k, "_symq_value") and not isinstance(k, SymArray)) else (k if isinstance(k, SymArray) else SymArray(_obj(k))) for k in keys]
@@ -1148,9 +1175,60 @@ def lexsort(keys, axis=-1):
     return SymArray(_np.array(p, dtype=object), _I8)
 
 
+def _unique_general(x, return_index, return_inverse, return_counts):
+    """np.unique by deciding the order / equality of the cells (forks; small arrays): sorted distinct values, index of the
+    first occurrence, inverse map, counts.  NaN cells collapse into one trailing NaN (numpy >= 1.21), infinities sort at the ends."""
+    x = _as(x)
+    cells = list(x.a.flat)
+
+    def lt(a, b):
+        an, bn = isinstance(a, NonFinite), isinstance(b, NonFinite)
+        if an or bn:
+            rank = lambda c: (0 if c.kind == "-inf" else 2 if c.kind in ("inf", "+inf") else 3) if isinstance(c, NonFinite) else 1
+            return rank(a) < rank(b)
+        r = a < b
+        return core.decide(r) if isinstance(r, core.SB) else bool(r)
+
+    def eq(a, b):
+        an, bn = isinstance(a, NonFinite), isinstance(b, NonFinite)
+        if an or bn:
+            return an and bn and a.kind == b.kind
+        r = a == b
+        return core.decide(r) if isinstance(r, core.SB) else bool(r)
+    groups = []           # sorted list of [value, first index, count]
+    inverse_of = {}
+    for i, c in enumerate(cells):
+        placed = False
+        for g in groups:
+            if eq(c, g[0]):
+                g[2] += 1
+                g[3].append(i)
+                placed = True
+                break
+        if placed:
+            continue
+        pos = 0
+        while pos < len(groups) and lt(groups[pos][0], c):
+            pos += 1
+        groups.insert(pos, [c, i, 1, [i]])
+    vals = SymArray(_obj([g[0] for g in groups]), x.dtype)
+    out = [vals]
+    if return_index:
+        out.append(SymArray(_obj([g[1] for g in groups]), _I8))
+    if return_inverse:
+        inv = [None] * len(cells)
+        for gi, g in enumerate(groups):
+            for i in g[3]:
+                inv[i] = gi
+        out.append(SymArray(_obj(inv), _I8))
+    if return_counts:
+        out.append(SymArray(_obj([g[2] for g in groups]), _I8))
+    return tuple(out) if len(out) > 1 else out[0]
+
+
 def unique(x, return_index=False, return_inverse=False, return_counts=False):
     if return_index or return_inverse:
-        raise UnsupportedByShim("np.unique(return_index/return_inverse)")
+        return _unique_general(x, return_index, return_inverse, return_counts)
     if return_counts:
         vals = unique(x)
         xa = x._symq_value() if (hasattr(x, "_symq_value") and not isinstance(x, SymArray)) else (x if isinstance(x, SymArray) else SymArray(_obj(x)))
